@@ -28,9 +28,10 @@ impl Parser for Service {
                 tag("}"),
                 opt(blank),
                 opt(Annotations::parse),
+                opt(blank),
                 opt(list_separator),
             )),
-            |(_, _, name, extends, _, _, functions, _, _, _, annotations, _)| Service {
+            |(_, _, name, extends, _, _, functions, _, _, _, annotations, _, _)| Service {
                 name,
                 extends,
                 functions,
